@@ -26,7 +26,7 @@ pub fn run_c14(ctx: &Ctx) -> i32 {
     let mut per = vec![];
     let backends = [HB::Mem, HB::Phys, HB::AltMem, HB::OvUpper, HB::OvLower, HB::Embedded];
     for b in backends {
-        let depth = if thorough && !b.is_phys() { 5 } else { 4 };
+        let depth = if (thorough && !b.is_phys()) || b == HB::Mem { 5 } else { 4 };
         for c in CONTENTS {
             let (st, v) = reader_scripts("C14", b, c, depth, &open_reader);
             println!("  [reader {} content {:?} depth {}] scripts={} steps={} violations={}", b.label(), String::from_utf8_lossy(c), depth, st.scripts, st.steps, v.len());
